@@ -158,6 +158,8 @@ RW = [
       note='multi-pattern whose equations force two siblings to be the same variable term although the only node has two different ones'),
     T('MM4', 'Lb', 3, [add(u(k(0, 1))), add(at(0, k(0, 1))), add(at(1, k(0, 1))), mmatch(('?o', u('?a')), ('?p', at(2, '?a')))], late={2: 3}, distinct=[[0, 1]],
       note='multi-pattern whose join variable is bound to a class with two slots and no symmetry: the two bindings must be identified argument by argument, not as slot sets'),
+    T('MM5', 'Lb', 2, [add(app(u(var(0)), var(1))), add(app(u(var(0)), k(0, 1))), mmatch(('?p', u('?z')), ('?r', app('?p', '?q')))],
+      note='multi-pattern in which an already bound variable is met again as the FIRST child of a later equation and a new variable follows it in the same node: the new binding must be canonical with respect to the slots identified for the first'),
     T('R1', 'Lf', 6, [add(f(0, 1)), add(f(2, 3)), union(f(0, 1), f(2, 3)), rewrite(rule('f-to-g', f(4, 5), g(5, 4))), probe(g(1, 0)), probe(g(3, 2)), rewrite(rule('f-to-g', f(4, 5), g(5, 4)))], late={4: 3, 5: 3},
       note='(f $x $y) => (g $y $x) on every final state of T1; second application must report no change'),
     T('R2', 'Lb', 3, [add(app(var(0), var(1))), add(app(var(1), var(1))), rewrite(rule('comm', app('?a', '?b'), app('?b', '?a')), rule('idem', app('?a', '?a'), '?a')), probe(app(var(1), var(0))), rewrite(rule('comm', app('?a', '?b'), app('?b', '?a')), rule('idem', app('?a', '?a'), '?a'))],
@@ -198,6 +200,10 @@ EX = [
       note='the queried class itself contains a leaf that outweighs a composite member (k = 5 > u(var) = 2): the leaf is not the answer under the weighted cost, it is under AstSize'),
     T('X9', 'Lb', 2, [add(j(0, 1)), add(app(j(0, 1), j(1, 0))), extract(app(j(0, 1), j(1, 0))), extract(app(j(0, 1), j(1, 0)), 'Weighted')], distinct=[[0, 1]],
       note='the cheapest node mentions one non-symmetric class twice with the same slots in exchanged order: the two children are different terms'),
+    T('X10', 'Lb', 3, [add(lt(var(0), 2, app(var(2), var(1)))), extract(lt(var(0), 2, app(var(2), var(1)))), extract(lt(var(0), 2, app(var(2), var(1))), 'Weighted'), add(lt(var(1), 2, app(var(2), var(0)))), extract(lt(var(1), 2, app(var(2), var(0))))],
+      note='a binder that follows a child with a free slot (its canonical name is not $0), queried under every naming of the two free slots: the extracted term must not capture a free slot'),
+    T('X11', 'Lb', 2, [add(app(u(u(var(0))), u(u(var(1))))), add(app(var(0), u(u(u(var(1)))))), union(app(u(u(var(0))), u(u(var(1)))), app(var(0), u(u(u(var(1)))))), extract(app(var(0), u(u(u(var(1)))))), extract(app(u(u(var(0))), u(u(var(1)))))],
+      note='a class with two nodes of the same operator: the dearer one (children 3 + 3) is complete before the cheaper one (children 1 + 4)'),
     T('X7', 'Lb', 2, [add(at(0, var(0))), add(at(1, var(1))), union(at(0, var(0)), at(1, var(1))), extract(at(0, var(0))), extract(at(1, var(1)), 'Weighted')],
       note='redundant slot that occurs in a slot field of the cheapest node and in its child: the extracted term must name it consistently'),
 ]
@@ -222,6 +228,9 @@ _c9 = u(u(u(k(0, 1)))); _b9 = j(0, 1); _d9 = u(u(u(u(m3(0, 1, 0))))); _q9 = app(
 AN = AN + _an('A9', [add(lam(2, _c9)), add(app(_c9, _d9)), union(lam(2, _c9), app(_c9, _d9)), add(_q9), add(lam(2, _q9)), add(u(_q9)), add(app(_q9, _q9)), add(app(_q9, _d9)), add(app(_d9, _q9)), add(lam(2, lam(2, _q9))),
                      add(_c9), add(_b9), union(_c9, _b9)],
               'a class P = {f(c), h(c,d)} is merged away by congruence (h(c,d) = h(b,d), the other class has more parents) in the same rebuild in which its member f(c) improves because c = b: the moved node must still be re-analysed')
+_s10 = app(k(0, 1), j(0, 1)); _n10 = u(_s10)
+AN = AN + _an('A10', [add(u(_n10)), add(app(_n10, _n10)), add(lam(2, _n10)), add(u(m3(0, 1, 0))), union(_s10, m3(0, 1, 0))],
+              'neg(3+4) has users; 3+4 = 7 where neg(7) already exists in a smaller class: the node improves its own class, is then congruent to the other class and its class survives - its users must still be re-analysed')
 for _t in AN: _t.light = True
 # --- constant folding with a modify hook (language La, numbers concrete, slot names symbolic): the hook adds (num v) to every class whose datum is Some(v) and
 # unions it - the analysis changes the equivalence itself, so the oracle closure contains the folded constants (oracle.const_closure)
